@@ -219,3 +219,29 @@ def C09(tier, seed):
                   "Trace: sizes {1,63,64,65,100,128,1000,1024,4096,4097,65536} bits x num_hashes {1,2,3,7,16} x seeds {9001,0,u64::MAX,..}, "
                   "u64 and string items, random insert/contains_and_insert/contains/union/intersect/invert/reset/round-trip histories over two "
                   "filters, bit array and bits_used after every step / checkpoint")
+
+
+# --------------------------------------------------------------------------- CPC
+CPC_CONSTS = "CONSTANTS NumCols = 64  WinBits = 8  SpNum = 3  SpDen = 32  OffBase = 19\n"
+
+
+def C05(tier, seed):
+    hll_like("C05", tier, seed, ["C05"], "cpc-record", [("MC_Cpc", "MC_Cpc.cfg")], None,
+             module="Trace_Cpc", family="Cpc", consts=CPC_CONSTS, extra_args={"what": "sketch"},
+             assumptions=["(row, col) of a public update() is derived by harness/src/refhash.rs (row = h1 & (k-1), col = min(63, lz(h2)), seed 9001)",
+                          "state is read through CpcSketch::verif_state(); the pair table is compared as a set (its slot layout is not observable through the sketch)",
+                          "lg_k 21 and 26 spot checks are not recorded as traces (TLC cannot hold 2^21 rows); covered only through the lg_k-parametric specification"],
+             rule="MC: 2 rows x 7 columns, 2-bit window, every order/multiplicity of the 14 coupons (all 2^14 matrices, offsets 0..4); "
+                  "Trace: public random streams lg_k 4..8 (10, 12 checkpoints) up to 60k items, crafted (row, col) walks through "
+                  "Empty->Sparse->Hybrid->Pinned->Sliding and window offsets 1..56 with holes left of the window, late surprises at offset+8 and 63, "
+                  "duplicates, holes closed late; scalars after every coupon, full matrix/window/table/validate() at every window move")
+
+
+def C06(tier, seed):
+    hll_like("C06", tier, seed, ["C06"], "cpc-record", [("MC_CpcUnion", "MC_CpcUnion.cfg")], None,
+             module="Trace_Cpc", family="Cpc", consts=CPC_CONSTS, extra_args={"what": "union"},
+             assumptions=["inputs are built through the public update() and the (row, col) hook; union state is read through CpcUnion::verif_state()",
+                          "the model of a union is the OR of the inputs' model matrices folded to the smallest lg_k (ghost of the trace specification)"],
+             rule="MC: toy unions of lg_k 1..2 over a 7-shape catalogue (empty, sparse, windowed at several offsets, both lg_k), every sequence with "
+                  "repetition, to_sketch after every step; Trace: unions of lg_k 4,5,6,8,11 over catalogues of 10+ inputs (lg_k 4..8, all five "
+                  "flavors, fresh / deserialized / previous merge results), random orders with repetition, to_sketch with full state after every step")
